@@ -15,6 +15,29 @@ from vlib import gen, model, runner
 from vlib import universe as U
 from vlib.props.c11 import obs_diff, observe
 
+class EntryObj:
+    """a path-entry object (hashable) that can hold references"""
+
+    def __init__(self, name):
+        self.name = name
+
+    def __repr__(self):
+        return f'EntryObj({self.name})'
+
+
+class CE:
+    """custom node whose explicit path entries are objects stored on the instance"""
+
+    def __init__(self, ch, entries):
+        self.ch, self.entries = list(ch), tuple(entries)
+
+    def __getitem__(self, e):
+        return self.ch[self.entries.index(e)]
+
+
+optree.register_pytree_node(CE, lambda o: (tuple(o.ch), None, o.entries), lambda m, c: CE(c, [EntryObj(i) for i in range(len(c))]),
+                            namespace='c14ns')
+
 ACTIONS = ('mutate_source', 'mutate_returned', 'unregister', 'rereg', 'gc', 'del_tree', 'use_spec')
 
 
@@ -382,6 +405,14 @@ class C14(runner.Prop):
                 k.holder = h
                 tree = {'inner': 0, 'z': {k: U.Leaf(2), KeyObj(2): inner}}
                 tree = [tree['z']]
+            elif kind == 'custom_entries':
+                e = EntryObj('e0')
+                e.holder = h
+                tree = [inner, CE([U.Leaf(4), inner], [e, EntryObj('e1')])]
+                spec = optree.tree_structure(tree, none_is_leaf=cfg['nil'], namespace='c14ns')
+                h.spec = spec
+                h.paths = spec.paths()
+                return weakref.ref(h)
             else:   # namedtuple-less: defaultdict factory object
                 f = Holder()
                 f.holder = h
@@ -392,7 +423,7 @@ class C14(runner.Prop):
             h.children = spec.children()
             return weakref.ref(h)
 
-        for kind in ('metadata', 'dict_key', 'factory'):
+        for kind in ('metadata', 'dict_key', 'custom_entries', 'factory'):
             r = scenario(kind)
             gc.collect()
             if r() is not None:
